@@ -303,27 +303,23 @@ async fn on_event<K, V, LC>(
             }
         }
         MapMessage::Take(cnt) => {
-            let mut it = mem::take(map).into_iter();
-
-            for (key, value) in (&mut it).take(cnt as usize) {
-                map.insert(key, value);
-            }
-            for (key, value) in it {
-                if dispatch {
-                    lifecycle.on_remove(key, map, value).await;
+            let to_remove = map.keys().skip(cnt as usize).cloned().collect::<Vec<_>>();
+            for key in to_remove {
+                if let Some(value) = map.remove(&key) {
+                    if dispatch {
+                        lifecycle.on_remove(key, map, value).await;
+                    }
                 }
             }
         }
         MapMessage::Drop(cnt) => {
-            let mut it = mem::take(map).into_iter();
-
-            for (key, value) in (&mut it).take(cnt as usize) {
-                if dispatch {
-                    lifecycle.on_remove(key, map, value).await;
+            let to_remove = map.keys().take(cnt as usize).cloned().collect::<Vec<_>>();
+            for key in to_remove {
+                if let Some(value) = map.remove(&key) {
+                    if dispatch {
+                        lifecycle.on_remove(key, map, value).await;
+                    }
                 }
-            }
-            for (key, value) in it {
-                map.insert(key, value);
             }
         }
     }
